@@ -113,8 +113,8 @@ NamingOf(w) ==
                     ELSE [kind |-> items[i].kind, orig |-> items[i].orig, named |-> FALSE,
                           name |-> <<>>, back |-> 0, fresh |-> fr[i]]],
        \* one namespace for the model elements, one for the variables (stronger than the property asks)
-       spaces |-> << [sec |-> "global", var |-> FALSE, multi |-> FALSE, free |-> FALSE, must |-> TRUE, items |-> AsSeq(G)],
-                     [sec |-> "vars", var |-> TRUE, multi |-> FALSE, free |-> FALSE, must |-> TRUE, items |-> AsSeq(V)] >>,
+       spaces |-> << [sec |-> "global", items |-> AsSeq(G)],
+                     [sec |-> "vars", items |-> AsSeq(V)] >>,
        text |-> <<>>, tback |-> <<>>]
 
 IInit == /\ gkw = KW.general /\ wr = NoWriter /\ touched = 0 /\ fl = {} /\ DInit
